@@ -1,10 +1,12 @@
 (** C20 — correspondence and spec-side predicates evaluated on the implementation's outputs. *)
-From V Require Import Base.Util C20.Model.
+From V Require Import Base.Util C20.Model Gen.C20_tables_gen C20.Specifier.
 
 Inductive case :=
 | CNorm (p out out2 : str)                       (* out = normalize_path(p), out2 = normalize_path(out) *)
 | CRes (a r out : str)                           (* out = resolve_relative_path(a, r) *)
-| CRound (a b : str) (rel : option str) (res : option str) (normb : str).
+| CRound (a b : str) (rel : option str) (res : option str) (normb : str)
+| CSpec (decl schema out : str)      (* out = import specifier the real CLI wrote into decl for the schema output *)
+| CSource (map_file input src : str). (* src = an entry of "sources" the real CLI wrote into map_file; input = the file meant *)
     (* rel = relative_path(a,b) (None = panic), res = resolve_relative_path(a, rel), normb = normalize_path(b) *)
 
 Definition agree (c : case) : bool :=
@@ -15,6 +17,8 @@ Definition agree (c : case) : bool :=
       option_eqb str_eqb (relative_s a b) rel
       && option_eqb str_eqb (option_map (resolve_s a) rel) res
       && str_eqb (normalize_s b) normb
+  | CSpec decl schema out => option_eqb str_eqb (specifier_s decl schema) (Some out)
+  | CSource mapf input src => option_eqb str_eqb (relative_s mapf input) (Some src)
   end.
 
 Definition no_dots (cs : list comp) : bool :=
@@ -40,4 +44,18 @@ Definition holds (c : case) : bool :=
             (if is_file ca then option_eqb str_eqb res (Some normb) else true)
         end
       else true
+  | CSpec decl schema out =>
+      let r := components out in
+      let landed := resolve (components decl) r in
+      let want := normalize (components schema) in
+      match r with Cur :: _ | Par :: _ => true | _ => false end
+      && list_eqb comp_eqb (dir_of landed) (dir_of want)
+      && match rev landed, rev want with
+         | Name l :: _, Name w :: _ =>
+             str_eqb l (match rename ts_to_js w with Some w' => w' | None => w end)
+         | _, _ => false
+         end
+  | CSource mapf input src =>
+      match components src with Cur :: _ | Par :: _ => true | _ => false end
+      && str_eqb (resolve_s mapf src) (normalize_s input)
   end.
